@@ -201,10 +201,28 @@ def rule_comment_skipper(ctx, rep: Report, rid="L1"):
     final = {n.uid: n for n in g.reachable(root)}
     for e in evs:
         what = e.other.attrs.get("what") if e.other.kind == "Comment" else e.other.describe()
-        rep.add(rid, "root.ignore:skips C and C++ comments", e.other.kind == "Comment"
-                and what in ("cppStyleComment", "cpp_style_comment"),
-                f"ignore expression is {what}; only cppStyleComment covers both /*..*/ and //..",
-                f"{e.mi.rel}:{e.at.lineno}")
+
+        def covers(n, depth=4) -> Set[str]:
+            """Which comment forms the expression skips, judged by pyparsing's own comment expressions (an
+            alternation of them is as good as the combined one)."""
+            if n.kind == "Comment":
+                w = n.attrs.get("what")
+                if w in ("cppStyleComment", "cpp_style_comment", "javaStyleComment", "java_style_comment"):
+                    return {"block", "line"}
+                if w in ("cStyleComment", "c_style_comment"):
+                    return {"block"}
+                if w in ("dblSlashComment", "dbl_slash_comment"):
+                    return {"line"}
+                return set()
+            if n.kind in ("Or", "MatchFirst") and depth > 0:
+                out: Set[str] = set()
+                for c in n.children:
+                    out |= covers(c, depth - 1)
+                return out
+            return set()
+        rep.add(rid, "root.ignore:skips C and C++ comments", covers(e.other) == {"block", "line"},
+                f"ignore expression is {what}; pyparsing's cppStyleComment (or cStyleComment together with dblSlashComment) covers both "
+                f"/*..*/ and //..; a hand-written pattern is not analysed and not accepted", f"{e.mi.rel}:{e.at.lineno}")
         rep.add(rid, "root.ignore:unconditional", not e.conditional,
                 "the comment skipper is installed under a condition", f"{e.mi.rel}:{e.at.lineno}")
         missing = [n for uid, n in final.items() if uid not in e.reach and n.kind != "Comment"]
